@@ -4,6 +4,10 @@ set -e
 cd /verif
 export GOFLAGS=-mod=mod GOPROXY=off GOSUMDB=off GOTOOLCHAIN=local
 mkdir -p .bin evidence replay
-(cd lean && lake build)
 (cd harness && cp /repo/go.sum . && go build -o /verif/.bin/extract ./cmd/extract && go build -tags verif -o /verif/.bin/vh ./cmd/vh)
+/verif/.bin/extract -repo /repo -out /verif/lean/Verif/Generated/Facts.lean
+targets="driver"
+for f in lean/Verif/Properties/C*.lean; do n=$(basename "$f" .lean); targets="$targets Verif.Properties.$n"; done
+for f in lean/Verif/Generated/FactsOK/C*.lean; do n=$(basename "$f" .lean); targets="$targets Verif.Generated.FactsOK.$n"; done
+(cd lean && lake build $targets)
 echo setup-ok
